@@ -42,7 +42,7 @@ func vfC01Content(r *vfRand) []byte {
 	if r.Chance(8) { // cross the rune-offset sampling boundary (every 100 runes) with multi-byte runes around it
 		n := 90 + r.Intn(25)
 		for i := 0; i < n; i++ {
-			b.WriteString(r.Pick([]string{"a", "a", "é", "b", "\n"}))
+			b.WriteString(r.Pick([]string{"a", "a", "é", "b", "\n", "😀"}))
 		}
 	}
 	n := r.Intn(13)
